@@ -47,7 +47,7 @@ ASSUME \A p \in DegeneratePaths : Degenerate(p) /\ ~HasFinal(p)
 
 VARIABLE done
 Init == done = FALSE
-Next == done' = TRUE
+Next == UNCHANGED done
 Spec == Init /\ [][Next]_done
 
 \* ---- the property over the reference definition
